@@ -22,6 +22,8 @@ Struct-vs-map flags of map literals are dictated by the parameter type (`wt`);
 -/
 import Martian.Invocation
 import Proofs.Invocation
+import Martian.InvocationStr
+import Proofs.InvocationStr
 import Gen.Facts
 
 namespace Props.C16
@@ -183,18 +185,18 @@ theorem split_status_roundtrip (s : Bool) (t : TypeId) (j : J) (a : Arg)
       | some v =>
         simp only [hf, Option.map_eq_some_iff] at h
         obtain ⟨e, he, rfl⟩ := h
-        simp [dataOfBinding, Arg.isSplit, encodeArg, canonArg, hf, encode_convert _ v e he]
+        simp [dataOfBinding, Arg.isSplit, encodeArg, canonArg, hf, encode_convertSplit _ v e he]
 
 /-- Split status survives call → JSON → call: a plain binding well-typed at the
-parameter's type `t`, or a split binding whose operand is well-typed at the
-collection type over `t` (`T[]` for an array operand, `map<T>` for a map
-operand), is rebuilt with the same split status and the same value (up to
-float normalisation). -/
+parameter's type `t`, or a split binding whose operand is what the compiler
+accepts for a split over `t` (`splitOperandOk`: an array of `t`-values or a map
+literal of `t`-values – also when `t` is itself a typed map, the case repaired
+as finding C16-N7 – or `null`), is rebuilt with the same split status and the
+same value (up to float normalisation). -/
 theorem binding_roundtrip (t : TypeId) (a : Arg)
     (hw : match a with
       | .plain e => wt t.base t.arrayDim t.mapDim e = true
-      | .split e => wt (collectionType t e).base (collectionType t e).arrayDim
-          (collectionType t e).mapDim e = true)
+      | .split e => splitOperandOk t e = true)
     (hi : intsOk a.value = true) :
     buildBinding (dataOfBinding a).1 t (dataOfBinding a).2 =
       some (match a with | .plain e => .plain (normE e) | .split e => .split (normE e)) := by
@@ -205,26 +207,74 @@ theorem binding_roundtrip (t : TypeId) (a : Arg)
     simp only [Arg.value] at hi
     cases e with
     | lit l =>
-      dsimp only [collectionType] at hw
+      dsimp only [splitOperandOk] at hw
       have := convert_encode t (.lit l) hw hi
       simp only [dataOfBinding, Arg.isSplit, encodeArg, buildBinding, if_true, JKvs.find]
       simp only [encode] at this ⊢
-      simp [splitSourceType, this]
+      simp [convertSplit, splitSourceType, this]
     | arr xs =>
-      dsimp only [collectionType] at hw
+      dsimp only [splitOperandOk] at hw
+      have hw' : wt t.base (t.arrayDim + 1) t.mapDim (.arr xs) = true := by simp [wt, hw]
       have : convert t (encode (.arr xs)) = some (normE (.arr xs)) := by
         simp only [convert, ofJ_encode _ hi, Option.map_some, erase_normE, fix_normE,
-          fix_erase_wt_succ _ _ _ _ hw]
+          fix_erase_wt_succ _ _ _ _ hw']
       simp only [dataOfBinding, Arg.isSplit, encodeArg, buildBinding, if_true, JKvs.find]
       simp only [encode] at this ⊢
-      simp [splitSourceType, this]
+      simp [convertSplit, splitSourceType, this]
     | map k kvs =>
-      dsimp only at hw
-      have := convert_encode (collectionType t (.map k kvs)) (.map k kvs) hw hi
-      simp only [dataOfBinding, Arg.isSplit, encodeArg, buildBinding, if_true, JKvs.find]
-      simp only [encode] at this ⊢
-      simp only [collectionType] at this
-      simp [splitSourceType, this]
+      simp only [splitOperandOk, Bool.and_eq_true, Bool.not_eq_true'] at hw
+      obtain ⟨hk, hv⟩ := hw
+      subst hk
+      simp only [intsOk] at hi
+      simp only [dataOfBinding, Arg.isSplit, encodeArg, buildBinding, if_true, JKvs.find, encode,
+        convertSplit_obj, ofJKvs_encodeKvs kvs hi, Option.map_some, eraseKvs_normEKvs,
+        fixVals_normEKvs, fixVals_erase_wt kvs _ _ _ hv, normE]
+
+/-- The earlier formulation of the split hypothesis – the operand is well-typed
+at `collectionType t e` (`T[]` for an array operand, `map<T>` for a map operand)
+– is the same condition wherever `collectionType` can express the type, i.e.
+for every operand unless it is a map and the parameter is itself a typed map. -/
+theorem splitOperandOk_eq_collectionType (t : TypeId) (e : Exp)
+    (h : t.mapDim = 0 ∨ ∀ k kvs, e ≠ .map k kvs) :
+    splitOperandOk t e = wt (collectionType t e).base (collectionType t e).arrayDim
+      (collectionType t e).mapDim e := by
+  cases e with
+  | lit l => rfl
+  | arr xs => simp [splitOperandOk, collectionType, wt]
+  | map k kvs =>
+    rcases h with h | h
+    · simp [splitOperandOk, collectionType, wt, h, mapAction]
+    · exact absurd rfl (h k kvs)
+
+/-- Finding C16-N7, the repaired rule: for `map<STRUCT> m` the argument
+`m = split {"k": {"a": {a: 1}}}` (accepted by the compiler) comes back as
+itself: outer literal and per-key values stay maps, the innermost literal is a
+struct.  Under the rule before the repair (operand converted at `map<STRUCT>`
+itself) the per-key value `{"a": …}` became a struct literal `{a: {"a": 1}}`,
+which the compiler rejects ("cannot assign struct literal to map"). -/
+theorem split_typed_map_over_map :
+    buildBinding true ⟨.struct (.cons [0x61] .scalar 0 0 .nil), 0, 1⟩
+      (.obj (.cons splitKey (.obj (.cons [0x6B] (.obj (.cons [0x61]
+        (.obj (.cons [0x61] (.lit (.int 1)) .nil)) .nil)) .nil)) .nil))
+    = some (.split (.map false (.cons [0x6B] (.map false (.cons [0x61]
+        (.map true (.cons [0x61] (.lit (.int 1)) .nil)) .nil)) .nil)))
+    ∧ convert ⟨.struct (.cons [0x61] .scalar 0 0 .nil), 0, 1⟩
+        (.obj (.cons [0x6B] (.obj (.cons [0x61] (.obj (.cons [0x61] (.lit (.int 1)) .nil)) .nil)) .nil))
+      = some (.map false (.cons [0x6B] (.map true (.cons [0x61]
+          (.map false (.cons [0x61] (.lit (.int 1)) .nil)) .nil)) .nil)) := by
+  constructor <;> rfl
+
+/-- In general: the operand of a split over a JSON object is a map literal
+whose values are converted at the parameter's type, whatever that type is. -/
+theorem split_over_map_values_at_param_type (t : TypeId) (kvs : JKvs) (a : Arg)
+    (h : buildBinding true t (.obj (.cons splitKey (.obj kvs) .nil)) = some a) :
+    ∃ es, ofJKvs kvs = some es ∧ a = .split (.map false (fixVals t.base t.arrayDim t.mapDim es)) := by
+  simp only [buildBinding, if_true, JKvs.find, convertSplit_obj] at h
+  cases hk : ofJKvs kvs with
+  | none => simp [hk] at h
+  | some es =>
+    simp only [hk, Option.map_some, Option.some.injEq] at h
+    exact ⟨es, rfl, h.symm⟩
 
 /-- A parameter of struct type split over a map (`x = split {"k": {a: 1}}`)
 is converted at `map<STRUCT>`: the outer literal stays a map literal and every
@@ -233,12 +283,7 @@ literal was marked as a struct and printed with bare keys). -/
 theorem split_map_over_struct (fs : Fields) (kvs : JKvs) (a : Arg)
     (h : buildBinding true ⟨.struct fs, 0, 0⟩ (.obj (.cons splitKey (.obj kvs) .nil)) = some a) :
     ∃ es, ofJKvs kvs = some es ∧ a = .split (.map false (fixVals (.struct fs) 0 0 es)) := by
-  simp only [buildBinding, if_true, JKvs.find, splitSourceType, convert, ofJ] at h
-  cases hk : ofJKvs kvs with
-  | none => simp [hk] at h
-  | some es =>
-    simp only [hk, Option.map_some, fix, mapAction, Option.some.injEq] at h
-    exact ⟨es, rfl, by simpa using h.symm⟩
+  exact split_over_map_values_at_param_type ⟨.struct fs, 0, 0⟩ kvs a h
 
 /-- Whole call, JSON → bindings → JSON (`BuildCallAst` then `BuildDataForAst`):
 the regenerated invocation data is the canonical form of the input — every
@@ -272,7 +317,7 @@ array is always expressible as `x = split [...]`. -/
 theorem split_array_printable (t : TypeId) (v : J) (r : JList) (a : Arg)
     (h : buildBinding true t (.obj (.cons splitKey (.arr (.cons v r)) .nil)) = some a) :
     a.printable = true := by
-  simp only [buildBinding, if_true, JKvs.find, splitSourceType, convert, ofJ, ofJList] at h
+  simp only [buildBinding, if_true, JKvs.find, convertSplit, splitSourceType, convert, ofJ, ofJList] at h
   split at h
   · simp only [Option.map_some, fix, fixList, Option.some.injEq] at h
     subst h; rfl
@@ -346,5 +391,168 @@ theorem split_empty_not_printable :
 theorem split_null_not_printable :
     (buildBinding true ⟨.scalar, 0, 0⟩ (.obj (.cons splitKey (.lit .null) .nil))).map Arg.printable
       = some false := by rfl
+
+
+/-! ## references and aliased calls: outside the round trip, and why
+
+* A reference in an argument of a top-level call does not compile ("this
+  binding cannot be resolved outside of a stage or pipeline": checked on the
+  real compiler every run for a reference at top level, inside an array, inside
+  a map and under `split`), so "the call compiles" – a decidable hypothesis on
+  the text – excludes it.  What the conversions do with one anyway is a
+  theorem: the text → JSON leg writes `{"__reference__": "ID.out"}` and the
+  JSON → text leg has no reader for it, so a map (or struct) literal comes back,
+  never a reference (`reference_not_restored`).  The JSON side is still a fixed
+  point (`encode_convert`).
+* `call X as Y(...)`: invocation data records the callable (`DecId`), not the
+  alias; text → data → text' gives `call X(...)` and the data is unchanged
+  (`alias_not_in_data`, `alias_roundtrip_data`). -/
+
+/-- whatever `convertToExp` makes of a marshalled reference is a map literal
+with the single key `__reference__` holding the reference text as a string -/
+theorem reference_not_restored (t : TypeId) (id : Str) (e : Exp)
+    (h : convert t (encodeRef id) = some e) :
+    ∃ k v, e = .map k (.cons refKey v .nil) ∧ erase v = .lit (.str id) := by
+  simp only [convert, encodeRef, ofJ, ofJKvs, litOk, if_true, Option.map_some,
+    Option.some.injEq] at h
+  subst h
+  simp only [fix]
+  split
+  · exact ⟨false, .lit (.str id), by simp [fixVals, fix], rfl⟩
+  · exact ⟨true, .lit (.str id), by simp [fixFields, fix], rfl⟩
+  · exact ⟨true, _, rfl, rfl⟩
+  · exact ⟨false, _, rfl, rfl⟩
+
+/-- … while its JSON is unchanged by the round trip -/
+theorem reference_json_fixed_point (t : TypeId) (id : Str) (e : Exp)
+    (h : convert t (encodeRef id) = some e) : encode e = encodeRef id := by
+  rw [encode_convert t _ e h]; rfl
+
+/-- the alias of a call is not part of the invocation data -/
+theorem alias_not_in_data (alias name : Str) (bs : List (Str × Arg)) :
+    dataOfCall ⟨alias, name, bs⟩ = dataOfCall ⟨name, name, bs⟩ := rfl
+
+/-- text (aliased or not) → data → call: the callable and the data survive, the
+regenerated call carries the callable's own name as its id -/
+theorem alias_roundtrip_data (alias name : Str) (bs : List (Str × Arg)) :
+    (callOfData (dataOfCall ⟨alias, name, bs⟩).1 bs).id = name
+    ∧ dataOfCall (callOfData (dataOfCall ⟨alias, name, bs⟩).1 bs) = dataOfCall ⟨alias, name, bs⟩ :=
+  ⟨rfl, rfl⟩
+
+/-- `reference_not_restored`'s hypothesis holds at every type: e.g. at a struct
+type the result is the (unparseable) struct literal `{__reference__: "A.b"}` -/
+example : convert ⟨.struct innerT, 0, 0⟩ (encodeRef [0x41, 0x2E, 0x62])
+    = some (.map true (.cons refKey (.lit (.str [0x41, 0x2E, 0x62])) .nil)) := by rfl
+
+/-- `binding_roundtrip` for the repaired case: `map<INNER> m = split {"k": {"a": {a: 1}}}` -/
+example : splitOperandOk ⟨.struct innerT, 0, 1⟩
+    (.map false (.cons kK (.map false (.cons kA (.map true (.cons kA (.lit (.int 1)) .nil)) .nil)) .nil))
+    = true := by decide
+
+/-! ## the string leaf at byte level
+
+`Lit.str s` above is the decoded byte string; the theorems below are about the
+TEXT that carries it in either direction (models: Martian/InvocationStr.lean
+for `encoding/json`'s encoder/decoder and Python's `json.dumps`,
+Martian/Lexer.lean `unquoteBytes`, Martian/Format.lean `quoteString`; each is
+compared with the real function on every run). -/
+section StringLeaf
+open Martian.InvocationStr
+open Martian.Lexer (unquoteBytes)
+open Martian.Format (quoteString)
+open Martian.ShellQuote (validUtf8)
+
+/-- JSON → MRO, (a): `convertToExp` hands the JSON text to the MRO parser; what
+`encoding/json` writes for a valid UTF-8 string – with HTML escaping
+(`json.Marshal`, also when it re-compacts a `RawMessage`) or without
+(`SetEscapeHTML(false)`) – is read back exactly by `unquoteBytes`.  For ALL
+valid UTF-8 strings. -/
+theorem string_leaf_json_to_mro (html : Bool) (s : Str) (h : validUtf8 s = true) :
+    unquoteBytes (jsonEncodeString html s) = some s :=
+  unquote_jsonEncode html s h
+
+/-- Any other writer: whatever produced the token, if it is valid UTF-8 and
+`encoding/json` decodes it to `s`, the MRO path reads the same `s` – every JSON
+escape form (`\/`, upper/lower-case hex, surrogate pairs for non-BMP runes as
+Python's `ensure_ascii` writes them); lone or mis-paired surrogate escapes are
+U+FFFD on both paths. -/
+theorem string_leaf_any_json_writer (body s : Str) (hv : validUtf8 body = true)
+    (h : jsonDecodeString (0x22 :: (body ++ [0x22])) = some s) :
+    unquoteBytes (0x22 :: (body ++ [0x22])) = some s :=
+  unquote_of_jsonDecode body s hv h
+
+/-- … and in particular Python's `json.dumps` (what a Python stage writes into
+`_outs`, whose string tokens reach the MRO lexer unchanged through
+`Fork.writeInvocation`): `\\uXXXX` for everything outside `' '..'~'`, a
+surrogate pair of escapes for every non-BMP rune.  For ALL valid UTF-8
+strings. -/
+theorem string_leaf_python_writer (s : Str) (h : validUtf8 s = true) :
+    unquoteBytes (pyEncodeString s) = some s :=
+  unquote_pyEncode s h
+
+/-- MRO → JSON, (b): `MarshalJSON`/`EncodeJSON` print every string and map key
+with `quoteString`; a JSON reader decodes that text to the string. -/
+theorem string_leaf_mro_to_json (s : Str) (h : validUtf8 s = true) :
+    jsonDecodeString (quoteString s) = some s :=
+  jsonDecode_quoteString s h
+
+/-- `quoteString` IS `encoding/json`'s string encoder without HTML escaping,
+byte for byte, for every byte string (invalid UTF-8 included: `\ufffd`). -/
+theorem quoteString_is_json_encoder (s : Str) : jsonEncodeString false s = quoteString s :=
+  jsonEncode_false_eq s
+
+/-- `encoding/json` reads its own output back. -/
+theorem json_encode_decode (html : Bool) (s : Str) (h : validUtf8 s = true) :
+    jsonDecodeString (jsonEncodeString html s) = some s :=
+  jsonDecode_jsonEncode html s h
+
+/-- (c): the string leaf of `source_roundtrip` / `encode_convert` at byte level.
+JSON text (either Go writer) → MRO lexer → `quoteString` (the formatter's and
+`MarshalJSON`'s printer) → MRO lexer again and → JSON decoder: every leg
+returns the same string, and the text reaches a fixed point (`quoteString s`)
+after one leg. -/
+theorem string_leaf_roundtrip (html : Bool) (s : Str) (h : validUtf8 s = true) :
+    ∃ s1, unquoteBytes (jsonEncodeString html s) = some s1
+      ∧ unquoteBytes (quoteString s1) = some s
+      ∧ jsonDecodeString (quoteString s1) = some s
+      ∧ quoteString s1 = jsonEncodeString false s :=
+  ⟨s, unquote_jsonEncode html s h, Martian.Format.unquote_quoteString s h,
+    jsonDecode_quoteString s h, (jsonEncode_false_eq s).symm⟩
+
+/-- Not preserved, stated: a string that is NOT valid UTF-8 does not survive –
+the writers replace each offending byte by U+FFFD (`"\xff"` ↦ `"\ufffd"`). -/
+theorem invalid_utf8_not_preserved :
+    unquoteBytes (jsonEncodeString true [0x61, 0xFF]) = some [0x61, 0xEF, 0xBF, 0xBD]
+    ∧ jsonDecodeString (quoteString [0xFF]) = some [0xEF, 0xBF, 0xBD] := by decide
+
+/-! non-vacuity / witnesses: `<é😀\u2028\x7f"` -/
+private def sample : Str :=
+  [0x3C, 0xC3, 0xA9, 0xF0, 0x9F, 0x98, 0x80, 0xE2, 0x80, 0xA8, 0x7F, 0x22]
+example : validUtf8 sample = true := by decide
+/-- HTML mode writes `\u003c`, U+2028 is always escaped, DEL and runes are literal -/
+example : jsonEncodeString true sample =
+    [0x22, 0x5C, 0x75, 0x30, 0x30, 0x33, 0x63, 0xC3, 0xA9, 0xF0, 0x9F, 0x98, 0x80,
+     0x5C, 0x75, 0x32, 0x30, 0x32, 0x38, 0x7F, 0x5C, 0x22, 0x22] := by decide
+/-- Python writes the non-BMP rune as a surrogate pair `\ud83d\ude00`, DEL as `\u007f` -/
+example : pyEncodeString [0xF0, 0x9F, 0x98, 0x80, 0x7F] =
+    [0x22, 0x5C, 0x75, 0x64, 0x38, 0x33, 0x64, 0x5C, 0x75, 0x64, 0x65, 0x30, 0x30,
+     0x5C, 0x75, 0x30, 0x30, 0x37, 0x66, 0x22] := by decide
+/-- … which both decoders read as the rune (hypothesis of `string_leaf_any_json_writer`) -/
+example : jsonDecodeString (pyEncodeString sample) = some sample
+    ∧ unquoteBytes (pyEncodeString sample) = some sample := by decide
+/-- upper-case hex surrogate pair, `\/`, and a lone surrogate (U+FFFD on both paths) -/
+example : jsonDecodeString [0x22, 0x5C, 0x75, 0x44, 0x38, 0x33, 0x44, 0x5C, 0x75, 0x44, 0x45, 0x30, 0x30, 0x5C, 0x2F, 0x22]
+      = some [0xF0, 0x9F, 0x98, 0x80, 0x2F]
+    ∧ unquoteBytes [0x22, 0x5C, 0x75, 0x44, 0x38, 0x33, 0x44, 0x5C, 0x75, 0x44, 0x45, 0x30, 0x30, 0x5C, 0x2F, 0x22]
+      = some [0xF0, 0x9F, 0x98, 0x80, 0x2F]
+    ∧ jsonDecodeString [0x22, 0x5C, 0x75, 0x64, 0x38, 0x30, 0x30, 0x41, 0x22] = some [0xEF, 0xBF, 0xBD, 0x41]
+    ∧ unquoteBytes [0x22, 0x5C, 0x75, 0x64, 0x38, 0x30, 0x30, 0x41, 0x22] = some [0xEF, 0xBF, 0xBD, 0x41] := by
+  decide
+/-- the agreement is one-directional: `\x41` and a raw control byte are MRO-only -/
+example : jsonDecodeString [0x22, 0x5C, 0x78, 0x34, 0x31, 0x22] = none
+    ∧ unquoteBytes [0x22, 0x5C, 0x78, 0x34, 0x31, 0x22] = some [0x41]
+    ∧ jsonDecodeString [0x22, 0x01, 0x22] = none := by decide
+
+end StringLeaf
 
 end Props.C16
